@@ -51,6 +51,20 @@ func main() {
 			usage()
 		}
 		os.Exit(replay(os.Args[2]))
+	case "bce":
+		p, err := Load(repoDir(), "", "")
+		if err != nil {
+			fmt.Println("ERROR", err)
+			os.Exit(2)
+		}
+		sites, err := runBCE(p)
+		if err != nil {
+			fmt.Println("ERROR", err)
+			os.Exit(2)
+		}
+		for _, s := range sites {
+			fmt.Printf("%s:%d:%d %s inlined=%v fn=%s expr=%s\n", s.File, s.Line, s.Col, s.Kind, s.Inlined, fnDisplay(s.FB), s.Expr)
+		}
 	case "selftest":
 		os.Exit(selftest(os.Args[2:]))
 	default:
